@@ -62,6 +62,7 @@ func run(c Case) verdict {
 	srv := fake.NewServer()
 	defer srv.Close()
 	fullsync.Register(srv, metas)
+	fullsync.RefuseRestores(c.Cfg, srv, metas)
 	ctx, cancel := context.WithTimeout(context.Background(), 60*time.Second)
 	defer cancel()
 	err, _ := fullsync.Run(c.Cfg, srv, data, ctx, nil)
@@ -75,10 +76,16 @@ func run(c Case) verdict {
 		v.inconc = "snapshot replay did not finish within 60 s"
 		return v
 	}
+	if err != nil && c.Cfg.BadFormatEvery > 0 && strings.Contains(err.Error(), "Bad data format") {
+		// the target refused a payload and the tool stopped: the replay did not complete, the property claims nothing
+		v.facts["stopped-on-refused-payload"] = true
+		return v
+	}
 	if err != nil {
 		v.fails = append(v.fails, failure{"replay-failed:" + errClass(err), fmt.Sprintf("replay of a valid snapshot failed: %v", err)})
 		return v
 	}
+	v.facts["target-refuses-some-payloads"] = c.Cfg.BadFormatEvery > 0
 	for _, m := range fullsync.CheckRestorePayloads(c.Cfg, srv, metas) {
 		v.fails = append(v.fails, failure{m.Sig, m.Msg})
 	}
